@@ -20,6 +20,9 @@ pub mod raw;
 pub use origin::WithOrigin;
 pub use raw::WithRawSiginfo;
 
+#[cfg(sighook_verif)]
+use sighook_shim::sync::atomic::{AtomicBool, Ordering};
+#[cfg(not(sighook_verif))]
 use std::sync::atomic::{AtomicBool, Ordering};
 
 use libc::{c_int, siginfo_t};
